@@ -39,7 +39,7 @@ LEVEL_TEXT = ('machine-checked Coq theorems (C16_*) for all lists / mappings / d
               'derived keys in every keyword order and on thousands of generated operator cases')
 LEVEL_NOTE = ('trusted: Coq kernel/vm_compute; modelled not verified: CPython dict/set/copy semantics. Known findings: Dict + <instance of a dict subclass other '
               "than dict/dictattr/Dict> raises ValueError (tree_update recognises branches by exact type); a mapping entry or keyword literally named 'self' makes "
-              'Dict.__call__ raise TypeError (theorems assume self_free; Coq: C16_call_self_named_key_refuted). Assumed away (see ASSUMPTIONS): attribute access for keys named like dict '
+              'Dict.__call__ raise TypeError (theorems assume self_free; Coq: C16_call_self_named_key_refuted). a subclass with its own __init__ signature has its constructor re-run by &, d[[...]], | and relabel (KNOWN FINDING c16_subclass_constructor_rerun; theorems about the core operators + C16_entry_points). Assumed away (see ASSUMPTIONS): attribute access for keys named like dict '
               'attributes, relabel(keys=...)/relabel(self=...) in the keyword spelling, a dict_keys operand of d - keys')
 TECHNIQUE = 'Coq proof (induction, invariant over the round loop, uniqueness of solutions of an acyclic equation system) + differential correspondence in vm_compute'
 
@@ -88,7 +88,11 @@ def coq_strs(l):
     return '[' + '; '.join(coq_str(s) for s in l) + ']'
 def coq_items(items):
     return '[' + '; '.join('(%s, (%d))' % (coq_str(k), v) for k, v in items) + ']'
-CLS = {'dict': 'CPlain', 'dictattr': 'CDictattr', 'Dict': 'CDict', 'UA': 'CUserA', 'UD': 'CUserD'}
+CLS = {'dict': 'CPlain', 'dictattr': 'CDictattr', 'Dict': 'CDict', 'UA': 'CUserA', 'UD': 'CUserD', 'PT': 'CPoint', 'KO': 'CKwInit'}
+def coq_tr(t):
+    """a nested mapping: int leaf or {'cls': .., 'items': [[k, sub], ...]}"""
+    if isinstance(t, int): return '(TLeaf (%d))' % t
+    return '(TNode %s [%s])' % (CLS[t['cls']], '; '.join('(%s, %s)' % (coq_str(k), coq_tr(v)) for k, v in t['items']))
 
 def coq_fun(v):
     """a callable: parameter names in order, each with its default if it has one (positional and keyword-only alike)"""
@@ -99,6 +103,7 @@ def coq_runner(case):
     k = case['kind']
     if k == 'ulist': return 'run_ulist'
     if k == 'dict': return 'run_dict'
+    if k == 'tree_add': return 'run_tree_add'
     return 'run_call' if case.get('perms', 'all') == 'all' else 'run_call_one'
 
 def coq_other(o, enc, eqb='hv_eqb'):
@@ -112,6 +117,7 @@ def coq_sel(case):
 
 def coq_case(case):
     k = case['kind']
+    if k == 'tree_add': return '(%s, %s)' % (coq_tr(case['d']), coq_tr(case['other']))
     if k == 'ulist':
         o = case.get('other') or {'list': []}
         return '(%s, [%s], %s)' % (coq_str(case['op']), '; '.join(coq_hv(e) for e in case['raw']), coq_other(o, coq_hv))
@@ -148,7 +154,11 @@ def impl_setup():
     class U2(ulist): pass
     class UA(dictattr): pass
     class UD(Dict): pass
-    CLASSES = {'dict': dict, 'dictattr': dictattr, 'Dict': Dict, 'UA': UA, 'UD': UD, 'ulist': ulist, 'U2': U2}
+    class PT(Dict):                         # user subclasses with their own __init__ signature: operations must not re-run it
+        def __init__(self, x = 0, y = 0, **kw): super().__init__(x = x, y = y, **kw)
+    class KO(dictattr):
+        def __init__(self, *, name = 'n', **kw): super().__init__(name = name, **kw)
+    CLASSES = {'dict': dict, 'dictattr': dictattr, 'Dict': Dict, 'UA': UA, 'UD': UD, 'ulist': ulist, 'U2': U2, 'PT': PT, 'KO': KO}
 
 def same(a, b):
     """same Python value as passed: equal and of the same type, recursively"""
@@ -198,12 +208,24 @@ class Leaf(list):
     """a leaf value with identity; observed as its integer"""
     pass
 def mkmap(cls, items):
-    d = cls()
+    d = cls.__new__(cls)                    # exactly these items, whatever the class constructor would add
     for k, v in items:
         dict.__setitem__(d, k, Leaf([v]))
     return d
+def cv(v):
+    """canonical form of whatever a (possibly broken) implementation left as a value"""
+    if v is None or isinstance(v, (bool, int, str)): return v
+    if isinstance(v, dict): return ['<%s>' % type(v).__name__, [[str(k), cv(x)] for k, x in dict.items(v)]]
+    if isinstance(v, (list, tuple)): return [cv(x) for x in v]
+    return '<%s>' % type(v).__name__
+INIT_DEFAULT = {('x', 0): -1000, ('y', 0): -1001, ('name', 'n'): -1002}      # what a re-run constructor injects (model: init_z)
+def obs_value(k, v):
+    if isinstance(v, Leaf) and len(v) == 1 and isinstance(v[0], int): return v[0]
+    if isinstance(v, dict): return -2000                                        # a whole mapping landed in a constructor parameter (model: whole_z)
+    if isinstance(v, (int, str)) and not isinstance(v, bool) and (k, v) in INIT_DEFAULT: return INIT_DEFAULT[(k, v)]
+    return ['?', cv(v)]
 def obs_items(d):
-    return [[k, v[0]] for k, v in dict.items(d)]
+    return [[k, obs_value(k, v)] for k, v in dict.items(d)]
 
 def impl_dict(case):
     cls = CLASSES[case['cls']]
@@ -286,7 +308,7 @@ def impl_dict(case):
     if status != 'ok': robs = ['ERR', status]
     elif isinstance(r, dict): robs = [type(r).__name__, obs_items(r)]
     elif op in ('keys', 'keys_sub', 'keys_and', 'keys_add'): robs = list(r)
-    else: robs = [v[0] for v in r]
+    else: robs = [v[0] if isinstance(v, Leaf) else cv(v) for v in r]
     obs = [robs, obs_items(d), obs_items(other) if other is not None else None]
     # oracle
     after = list(dict.items(d))
@@ -312,7 +334,9 @@ def impl_dict(case):
             if not isinstance(r, list) or len(r) != len(want) or not all(a is b for a, b in zip(r, want)): viol = '%s %r returned %r' % (op, sel, robs)
         elif kind == 'keys':
             if type(r) is not ulist or list(r) != want: viol = '%s %r returned %s %r, expected ulist %r' % (op, sel, type(r).__name__, list(r), want)
-    return {'status': status, 'obs': obs, 'viol': viol}
+    res = {'status': status, 'obs': obs, 'viol': viol}
+    if claim and exp and exp[0] == 'map': res['exp'] = [[k, v[0]] for k, v in exp[1]]      # the expected items (used by the known-finding predicate)
+    return res
 
 def make_fn(k, deps, dflt=None, ko=0):
     """the free callable [k, arg1, ...]; dflt = defaults by parameter name; the last ko parameters are keyword-only"""
@@ -356,14 +380,14 @@ def impl_call(case):
         expected = dict(base); expected.update(consts)
         for k in fkeys: expected[k] = val(k)
     results = []; viol = None; status = 'ok'
-    d = cls()
+    d = cls.__new__(cls)
     for k, v in case['base']: dict.__setitem__(d, k, v)
     before = list(dict.items(d))
     for order in orders:
         kwargs = {k: (v['c'] if 'c' in v else make_fn(k, v['f'], v.get('d'), v.get('ko', 0))) for k, v in order}
         try:
             r = d(**kwargs)
-            results.append([type(r).__name__, [[k, v] for k, v in dict.items(r)]])
+            results.append([type(r).__name__, [[k, cv(v)] for k, v in dict.items(r)]])
             st = 'ok'
         except Exception as e:
             st = err_name(e); results.append(['ERR', st]); status = st; r = None
@@ -377,10 +401,63 @@ def impl_call(case):
                 elif type(r) is not cls: viol = 'Dict.__call__ returned a %s, not a %s' % (type(r).__name__, cls.__name__)
         if viol is None and list(dict.items(d)) != before:
             viol = 'Dict.__call__ changed the operand: %r -> %r' % (before, list(dict.items(d)))
-    return {'status': status, 'obs': [results, [[k, v] for k, v in dict.items(d)]], 'viol': viol}
+    return {'status': status, 'obs': [results, [[k, cv(v)] for k, v in dict.items(d)]], 'viol': viol}
+
+def mktree(t):
+    if isinstance(t, int): return Leaf([t])
+    d = CLASSES[t['cls']].__new__(CLASSES[t['cls']])
+    for k, v in t['items']: dict.__setitem__(d, k, mktree(v))
+    return d
+def obs_tree(x):
+    if isinstance(x, Leaf): return x[0]
+    return [type(x).__name__, [[k, obs_tree(v)] for k, v in dict.items(x)]]
+def deep_snapshot(x):
+    """structure AND identity of every mapping and leaf object below x (the objects are kept alive by the snapshot)"""
+    if isinstance(x, Leaf): return (x, 'leaf', x[0])
+    return (x, type(x).__name__, [(k, deep_snapshot(v)) for k, v in dict.items(x)])
+def deep_same(snap, x):
+    obj, kind, body = snap
+    if obj is not x: return False
+    if kind == 'leaf': return isinstance(x, Leaf) and list(x) == [body]
+    if type(x).__name__ != kind or len(body) != len(x): return False
+    return all(k == k2 and deep_same(s2, v2) for (k, s2), (k2, v2) in zip(body, dict.items(x)))
+def impl_tree_add(case):
+    """Dict + other where the values are nested mappings: neither operand may change at ANY depth"""
+    d = mktree(case['d']); o = mktree(case['other'])
+    sd, so = deep_snapshot(d), deep_snapshot(o)
+    status = 'ok'; viol = None
+    try:
+        r = d + o
+    except Exception as e:
+        status = err_name(e); r = None
+    obs = [obs_tree(r) if status == 'ok' else ['ERR', status], obs_tree(d), obs_tree(o)]
+    if not deep_same(sd, d): viol = 'd + other changed d below the top level: %r -> %r' % (obs_of_snap(sd), obs_tree(d))
+    elif not deep_same(so, o): viol = 'd + other changed other: %r -> %r' % (obs_of_snap(so), obs_tree(o))
+    elif status == 'ok':
+        if type(r) is not type(d): viol = 'd + other returned a %s, not a %s' % (type(r).__name__, type(d).__name__)
+        elif r is d: viol = 'd + other returned d itself'
+        else:
+            flat = lambda t, p=(): [(p, t)] if isinstance(t, Leaf) or type(t).__name__ not in ('dict', 'dictattr', 'Dict') else [x for k, v in dict.items(t) for x in flat(v, p + (k,))]
+            def walk(t, path):
+                for k in path:
+                    if not isinstance(t, dict) or k not in t: return None
+                    t = dict.__getitem__(t, k)
+                return t
+            for path, leaf in flat(o):          # {**d, **o} along every path of other: the leaf of other, the very object
+                if path and walk(r, path) is not leaf: viol = viol or 'd + other: path %r does not hold the value of other' % (path,)
+    elif type(o).__name__ in ('dict', 'dictattr', 'Dict'):
+        viol = 'd + other raised %s' % status
+    return {'status': status, 'obs': obs, 'viol': viol}
+def obs_of_snap(s):
+    obj, kind, body = s
+    return body if kind == 'leaf' else [kind, [[k, obs_of_snap(v)] for k, v in body]]
+def flat_any(t, p=()):
+    if not isinstance(t, dict): return [(p, t)]
+    return [x for k, v in dict.items(t) for x in flat_any(v, p + (k,))] or ([(p, t)] if p else [])
 
 def impl(case):
     k = case['kind']
+    if k == 'tree_add': return impl_tree_add(case)
     if k == 'ulist': return impl_ulist(case)
     if k == 'dict': return impl_dict(case)
     return impl_call(case)
@@ -388,6 +465,7 @@ def impl(case):
 # ------------------------------------------------------------------ classification
 def nontrivial(case, result):
     k = case['kind']
+    if k == 'tree_add': return True
     if k == 'ulist':
         raw = [json.dumps(canon(dec(e))) for e in case['raw']]
         vals = [dec(e) for e in case['raw']]
@@ -410,6 +488,7 @@ def nontrivial(case, result):
 
 def shape(case):
     k = case['kind']
+    if k == 'tree_add': return 'tree_add'
     if k == 'ulist': return 'ulist:%s:%s' % (case['op'], 'elem' if 'elem' in (case.get('other') or {}) else 'list')
     if k == 'dict': return 'dict:%s:%s' % (case['cls'], case['op'])
     n = len([1 for _, v in case['kw'] if 'f' in v])
@@ -697,11 +776,60 @@ def gen_large_call(rng, tier):
         out.append({'kind': 'call', 'cls': rng.choice(['Dict', 'UD']), 'base': base, 'kw': kw, 'perms': 'all'})
     return out
 
+def rand_tree(rng, cls, depth, keys, base):
+    """a mapping of class cls whose values are leaves or mappings down to the given depth"""
+    items = []
+    for k in rng.sample(keys, rng.choice([1, 2, 3])):
+        if depth > 0 and rng.random() < 0.7:
+            items.append([k, rand_tree(rng, rng.choice(['dict', 'dictattr', 'Dict', 'Dict', 'UD', 'UA']), depth - 1, keys, base)])
+        else:
+            base[0] += 1; items.append([k, base[0]])
+    return {'cls': cls, 'items': items}
+def gen_tree_add(rng, tier):
+    out = []; keys = ['a', 'b', 'c']
+    for _ in range(150 if tier == 'quick' else 3000):
+        cnt = [0]
+        d = rand_tree(rng, rng.choice(['Dict', 'Dict', 'UD']), rng.choice([1, 2, 3]), keys, cnt)
+        cnt = [100]
+        o = rand_tree(rng, rng.choice(['dict', 'dictattr', 'Dict']), rng.choice([1, 2, 3]), keys, cnt)
+        out.append({'kind': 'tree_add', 'd': d, 'other': o})
+    leaf = lambda i: i
+    N = lambda cls, *items: {'cls': cls, 'items': [list(x) for x in items]}
+    out.append({'kind': 'tree_add', 'd': N('Dict', ('a', N('Dict', ('b', N('Dict', ('c', 1), ('d', 2))))), ('z', 3)), 'other': N('dict', ('a', N('dict', ('b', N('dict', ('c', 100), ('e', 101))))))})
+    out.append({'kind': 'tree_add', 'd': N('Dict', ('a', N('dict', ('b', N('dictattr', ('c', N('dict', ('q', 1)))))))), 'other': N('Dict', ('a', N('Dict', ('b', N('Dict', ('c', N('Dict', ('q', 100), ('r', 101))))))))})
+    return out
+
+def gen_init_subclasses(rng, tier):
+    """user subclasses whose __init__ has its own signature, on the operators that work on a copy of the operand"""
+    out = []
+    for _ in range(200 if tier == 'quick' else 4000):
+        cls = rng.choice(['PT', 'KO'])
+        own = ['x', 'y'] if cls == 'PT' else ['name']
+        ks = rng.sample(own + ['a', 'b', 'zz'], rng.choice([1, 2, 3, 4])); items = [[k, i] for i, k in enumerate(ks)]
+        sel = [rng.choice(ks + own + ['q']) for _ in range(rng.choice([1, 1, 2, 3]))]
+        op = rng.choice(['sub', 'sub', 'add', 'gettuple', 'attr', 'keys', 'keys_sub', 'call'] if cls == 'PT' else ['sub', 'sub', 'add', 'gettuple', 'attr', 'keys', 'keys_and'])
+        if rng.random() < 0.25: op = rng.choice(['and', 'getlist', 'or', 'relabel'])      # rebuilt through type(self)(...): KNOWN FINDING c16_subclass_constructor_rerun
+        if op == 'call':
+            kw = [['k1', {'f': [ks[0]]}], ['k2', {'f': ['k1'] + ks[:1]}], [rng.choice(own), {'c': 9}]]; rng.shuffle(kw)
+            out.append({'kind': 'call', 'cls': cls, 'base': items, 'kw': kw, 'perms': 'all'}); continue
+        case = {'kind': 'dict', 'cls': cls, 'items': items, 'op': op}
+        if op in ('sub', 'keys_sub', 'keys_and'): case['sel'] = sel; case['form'] = 'str' if len(sel) == 1 and rng.random() < 0.5 else 'list'
+        elif op == 'gettuple': case['sel'] = sel
+        elif op == 'attr': case['sel'] = [rng.choice(ks + ['q'])]
+        elif op in ('add', 'or'): case['other'] = {'cls': rng.choice(['dict', 'dictattr', 'Dict']), 'items': [[k, 100 + i] for i, k in enumerate(rng.sample(own + ['a', 'w'], 2))]}
+        elif op == 'and': case['sel'] = sel; case['form'] = rng.choice(['list', 'tuple'])
+        elif op == 'getlist': case['sel'] = sel; case['form'] = 'list'
+        elif op == 'relabel':
+            case['arg'] = rng.choice([{'none': 1}, {'affix': 'p_'}, {'dict': [[rng.choice(ks), 'q']]}, {'upper': 1}]); case['kw'] = [[k, 'r' + k] for k in rng.sample(ks, rng.choice([0, 1]))]
+        out.append(case)
+    return out
+
 def gen_cases(rng, tier):
-    return gen_large_call(rng, tier) + gen_defaults(rng, tier) + gen_ulist(rng, tier) + gen_dict(rng, tier) + gen_call(rng, tier) + gen_collide(rng, tier)
+    return gen_tree_add(rng, tier) + gen_init_subclasses(rng, tier) + gen_large_call(rng, tier) + gen_defaults(rng, tier) + gen_ulist(rng, tier) + gen_dict(rng, tier) + gen_call(rng, tier) + gen_collide(rng, tier)
 
 def shrink(case):
     k = case['kind']
+    if k == 'tree_add': return
     if k == 'ulist':
         for i in range(len(case['raw'])):
             yield dict(case, raw=case['raw'][:i] + case['raw'][i + 1:])
